@@ -113,6 +113,34 @@ func famClear(r *Rng, o *Out, tier string) {
 			}
 		}
 	}
+	// requests whose reported time is far from the clock (the zero time.Time of an unset timestamp, the epoch, the
+	// far future), alone and next to an ordinary request: a window is compared with what the request reports, and
+	// one refused request is enough
+	for _, sec := range []int64{-62135596800, 0, -1, 4102444800, 1 << 40} {
+		for _, nb := range []int64{-1 << 63, -62135596800, 0, baseNow - 2, baseNow + 2} {
+			for _, na := range []int64{-62135596800, 0, baseNow + 2, 4102444800, 1<<63 - 1} {
+				c := &macaroon.ValidityWindow{NotBefore: nb, NotAfter: na}
+				cavs := []macaroon.Caveat{c}
+				if r.Bool() {
+					cavs = []macaroon.Caveat{&resset.IfPresent{Ifs: macaroon.NewCaveatSet(c), Else: resset.ActionAll}}
+				}
+				far := &Dyn{NowSec: sec, Action: resset.ActionRead}
+				accs, sxs := []macaroon.Access{far.As("bare")}, []string{far.Sx("bare")}
+				if r.Bool() {
+					near := &Dyn{NowSec: baseNow, Action: resset.ActionRead}
+					accs, sxs = append(accs, near.As("bare")), append(sxs, near.Sx("bare"))
+					if r.Bool() {
+						accs[0], accs[1], sxs[0], sxs[1] = accs[1], accs[0], sxs[1], sxs[0]
+					}
+				}
+				cs := macaroon.NewCaveatSet(cavs...)
+				res := guard(func() string { return sxErr(cs.Validate(accs...)) })
+				errClassStats(o, res)
+				o.count("farRequestTime")
+				o.emit(fmt.Sprintf("(validate %s (%s))", sxCavs(cavs), strings.Join(sxs, " ")), res)
+			}
+		}
+	}
 }
 
 // userCaveat is a caveat type defined outside the library whose values decide whether they are
@@ -198,6 +226,45 @@ func famResset(r *Rng, o *Out, tier string) {
 				}
 				run(&flyio.StorageObjects{Prefixes: pm}, d2, "storage")
 				o.count("prefixset")
+			}
+		}
+	}
+	// path-like ids: entries with and without a trailing separator, the bare separator, letter case; requests that
+	// extend an entry, stop short of its separator, continue it with another character, or differ in case. A prefix
+	// entry covers exactly the ids that START WITH THE ENTRY AS WRITTEN; a string entry covers only itself.
+	{
+		pids := []string{"/", "d/", "d", "d/e/", "D/"}
+		pmasks := []resset.Action{resset.ActionRead, resset.ActionRead | resset.ActionDelete, resset.ActionAll}
+		preq := []string{"d", "d/", "d/x", "d_x", "dx", "/", "/x", "x", "d/e", "d/e/f", "D/x", ""}
+		pacts := []resset.Action{resset.ActionRead, resset.ActionDelete, resset.ActionRead | resset.ActionDelete, resset.ActionWrite}
+		var psets []resset.ResourceSet[string, resset.Action]
+		for i := range pids {
+			for m := range pmasks {
+				psets = append(psets, strSetOf([][2]int{{i, m}}, pids, pmasks))
+				for j := i + 1; j < len(pids); j++ {
+					for m2 := range pmasks {
+						psets = append(psets, strSetOf([][2]int{{i, m}, {j, m2}}, pids, pmasks))
+					}
+				}
+			}
+		}
+		for _, s := range psets {
+			for _, id := range preq {
+				for _, a := range pacts {
+					cnt++
+					if cnt%stride != 0 {
+						continue
+					}
+					id := id
+					run(&flyio.Volumes{Volumes: s}, &Dyn{NowSec: baseNow, Action: a, Volume: &id}, "volume")
+					pm := resset.ResourceSet[resset.Prefix, resset.Action]{}
+					for k, v := range s {
+						pm[resset.Prefix(k)] = v
+					}
+					p := resset.Prefix(id)
+					run(&flyio.StorageObjects{Prefixes: pm}, &Dyn{NowSec: baseNow, Action: a, Storage: &p}, "storage")
+					o.count("pathlike")
+				}
 			}
 		}
 	}
@@ -439,10 +506,15 @@ func famFlyio(r *Rng, o *Out, tier string) {
 	bounds := []int64{baseNow - 2, baseNow, baseNow + 2, -1 << 63, 1<<63 - 1, 1<<63 - 1 - 62135596800, 1<<63 - 62135596800, 0, -62135596800, -62135596801}
 	for _, nb := range bounds {
 		for _, na := range bounds {
-			for ds := int64(-3); ds <= 3; ds++ {
+			// (after the instants around the harness clock: request times far from it - the zero time.Time, which a
+			// request type with an unset timestamp reports, the epoch, the far future: the window is compared with
+			// the time the REQUEST reports, whatever it is)
+			secs := []int64{baseNow - 3, baseNow - 2, baseNow - 1, baseNow, baseNow + 1, baseNow + 2, baseNow + 3,
+				-62135596800, -62135596801, 0, -1, 1 << 40, 4102444800}
+			for _, sec := range secs {
 				for _, ns := range []int64{0, 1, 999999999} {
 					c := &macaroon.ValidityWindow{NotBefore: nb, NotAfter: na}
-					d := &Dyn{NowSec: baseNow + ds, NowNsec: ns}
+					d := &Dyn{NowSec: sec, NowNsec: ns}
 					res := guard(func() string { return sxErr(c.Prohibits(d.As("bare"))) })
 					errClassStats(o, res)
 					o.count("vw")
